@@ -315,7 +315,14 @@ class Verifier(Calls):
         if stmt.orelse:
             raise Unsupported('for/else', stmt)
         res = []
-        for s, seq in self.ev(stmt.iter, st):
+        it = stmt.iter
+        enum = False
+        if isinstance(it, ast.Call) and isinstance(it.func, ast.Name) and it.func.id == 'enumerate' and \
+                len(it.args) == 1 and not it.keywords:
+            it = it.args[0]
+            enum = True
+        stmt._pyvc_enum = enum
+        for s, seq in self.ev(it, st):
             for s2, sv in self.force(s, seq):
                 res.extend(self.for_over(s2, stmt, sv))
         return res
@@ -330,6 +337,8 @@ class Verifier(Calls):
         elif isinstance(seq, VStr) and seq.lit is not None:
             items = [VCh(ord(c)) for c in seq.lit]
         if items is not None:
+            if getattr(stmt, '_pyvc_enum', False):
+                items = [VTuple([VInt(i), x]) for i, x in enumerate(items)]
             outs = [(st, 'next', None)]
             for it in items:
                 nxt = []
@@ -357,6 +366,11 @@ class Verifier(Calls):
             return str_len(seq)
         if isinstance(seq, VList):
             return self.list_len(st, seq)
+        if isinstance(seq, VAny):
+            # an opaque iterable: some non-negative number of opaque items
+            n = z3.Function('iter_len_any', IntS, IntS)(seq.t)
+            st.assume(n >= 0)
+            return n
         raise Unsupported('for loop over %s' % seq.kind, node)
 
     def seq_item(self, st, seq, i, node):
@@ -366,6 +380,8 @@ class Verifier(Calls):
             return v
         if isinstance(seq, VList):
             return self.list_get(st, seq, i)
+        if isinstance(seq, VAny):
+            return VAny(z3.Function('iter_item_any', IntS, IntS, IntS)(seq.t, i))
         raise Unsupported('for loop over %s' % seq.kind, node)
 
     def run_loop(self, st, stmt, k, spec, guard, pre_body):
@@ -428,6 +444,8 @@ class Verifier(Calls):
             s_in.assume(iv.t < n)
             if self.feasible(s_in):
                 item = self.seq_item(s_in, seq, iv.t, stmt)
+                if getattr(stmt, '_pyvc_enum', False):
+                    item = VTuple([VInt(iv.t), item])
                 for s3 in self.assign(s_in, stmt.target, item, stmt):
                     self.assign_name(s3, ivar, VInt(simp(iv.t + 1)))
                     branches.append((s3, True))
